@@ -244,16 +244,18 @@ def wrappedKind (k : String) : Bool :=
   k == "wrapped" || k == "wrapped-value" || k == "wrappedcred:server-flag"
 
 /-- **all sites wrapped.** Every zap field under modules/caddyhttp/… whose argument is (computed from) an
-    `*http.Request`, `http.Header`, `http.Response` or cookies goes through the loggable wrappers; the four
-    modelled sites are among them with the flag the model gives them.  A new unwrapped log site, or a
+    `*http.Request`, `http.Header`, `http.Response` or cookies goes through the loggable wrappers; the
+    modelled sites (by package and field key — function names are free to change) are among them with the flag
+    the model gives them.  A new unwrapped log site, or a
     wrapper fed with another flag expression, changes the regenerated table and breaks this theorem. -/
 theorem all_sites_wrapped :
-    Gen.logSitesScanComplete = true ∧ Gen.logSites.all (fun s => wrappedKind s.2.2) = true ∧
-    ([("caddyhttp.ServeHTTP", "request", "wrappedcred:server-flag"),
-      ("caddyhttp.logRequest", "resp_headers", "wrappedcred:server-flag"),
-      ("reverseproxy.reverseProxy", "request", "wrappedcred:server-flag"),
-      ("reverseproxy.reverseProxy", "headers", "wrappedcred:server-flag"),
-      ("rewrite.ServeHTTP", "request", "wrapped")].all fun s => Gen.logSites.contains s) = true := by decide
+    Gen.logSitesScanComplete = true ∧ Gen.logSites.all (fun s => wrappedKind s.2.2.2) = true ∧
+    ([("caddyhttp", "request", "wrappedcred:server-flag"),
+      ("caddyhttp", "resp_headers", "wrappedcred:server-flag"),
+      ("reverseproxy", "request", "wrappedcred:server-flag"),
+      ("reverseproxy", "headers", "wrappedcred:server-flag"),
+      ("rewrite", "request", "wrapped")].all fun e =>
+        Gen.logSites.any fun s => s.1 == e.1 && s.2.2.1 == e.2.1 && s.2.2.2 == e.2.2) = true := by decide
 
 /-! ## 3. field filters -/
 
